@@ -118,8 +118,24 @@ def run_case(ctx, rng, idx):
     rescale = mode in ("sequences", "deg-only", "dim-only") and rng.random() < 0.3
     warm = mode == "sequences" and not rescale and rng.random() < 0.35
     interleave = mode == "initial" and rng.random() < 0.25
+    # the starting hypergraph OBJECT was already handed to this sampler once, with one hyperedge different, and was then edited in
+    # place (one removal, one insertion: same numbers of nodes and hyperedges) into the intended starting point
+    warm_init = None
+    if mode == "initial" and not interleave and rng.random() < 0.3:
+        e0 = init_edges[0]
+        for _ in range(20):
+            alt = frozenset(rng.sample(node_labels, len(e0)))
+            if alt not in set(init_edges):
+                warm_init = alt
+                break
     u, w = gen_params(rng, N)
     max_size = rng.choice([None, rng.randint(max(2, max((len(e) for e in (init_edges or [])), default=2), max(dim_seq or {2: 0})), N)])
+
+    pred = mode == "initial" and max_size is not None and warm_init is None and not interleave
+    if pred and rng.random() < 0.85:
+        u = u * 4.0  # large Poisson means: a wrong normalisation constant shows in the integer weights
+        if True:
+            burn = 0  # the first thing the sampler evaluates is then what the previous sampler evaluated last (the list of sizes)
 
     def wit(extra=None):
         return {"mode": mode, "N": N, "u": u.tolist() if N <= 12 else None, "w": w.tolist(), "max_hye_size": max_size, "burn_in": burn, "thinning": thin, "seed": seed,
@@ -167,6 +183,15 @@ def run_case(ctx, rng, idx):
                 hh = hgx.Hypergraph([tuple(e) for e in init_edges])
             for n in node_labels:
                 hh.add_node(n)
+            if warm_init is not None:
+                w0_ = hh.get_weight(tuple(init_edges[0]))
+                hh.remove_edge(tuple(init_edges[0]))
+                hh.add_edge(tuple(warm_init), weight=w0_ if hh.is_weighted() else None)
+                next(s.sample(initial_hyg=hh))
+                hh.remove_edge(tuple(warm_init))
+                hh.add_edge(tuple(init_edges[0]), weight=w0_ if hh.is_weighted() else None)
+                chain.update(steps=0, accepted=0, bad=None, ref=None)
+                yielded.clear()
             it = s.sample(initial_hyg=hh)
         elif mode == "sequences":
             if warm:
@@ -220,6 +245,23 @@ def run_case(ctx, rng, idx):
         hs.HyMMSBMSampler._mcmc_step = step_wrapped
     else:
         ctx.note("probe-unavailable:_mcmc_step")
+    if pred:
+        # a sampler over MORE nodes (nine extra isolated ones), same explicit maximum size and the same list of hyperedge sizes, ran
+        # right before the first of the two equal samplers
+        try:
+            with np.errstate(all="ignore"):
+                extra_nodes = ["zz%d" % i for i in range(9)] if isinstance(node_labels[0], str) else [10**7 + i for i in range(9)]
+                u0, w0 = gen_params(rng, N + 9)
+                s0 = hs.HyMMSBMSampler(u=u0, w=w0, max_hye_size=max_size, burn_in_steps=burn, intermediate_steps=thin, seed=seed)
+                hp = hgx.Hypergraph([tuple(e) for e in init_edges])
+                for n in node_labels + extra_nodes:
+                    hp.add_node(n)
+                next(s0.sample(initial_hyg=hp))
+            ctx.event("a-sampler-over-more-nodes-ran-right-before")
+        except Exception as e:
+            ctx.note("predecessor-sampler-raised:" + type(e).__name__)
+        chain.update(steps=0, accepted=0, bad=None, ref=None)  # (the probes saw the predecessor too: what they recorded is dropped)
+        yielded.clear()
     try:
         with np.errstate(all="ignore"):
             r = call(draw)
@@ -301,6 +343,20 @@ def run_case(ctx, rng, idx):
         elif cond_size is not None:
             ctx.event("sample-with-merge-or-drop")
     # ---- reproducibility --------------------------------------------------------------------------
+    if pred:
+        # another sampler ran in between: other parameters, same explicit maximum size, another hypergraph (whatever is remembered
+        # between samplers at module level now belongs to that one)
+        try:
+            with np.errstate(all="ignore"):
+                u3, w3 = gen_params(rng, N)
+                s3 = hs.HyMMSBMSampler(u=u3, w=w3, max_hye_size=max_size, burn_in_steps=0, intermediate_steps=1, seed=seed + 1)
+                h3 = hgx.Hypergraph([tuple(node_labels[:2]), tuple(node_labels[1:3])])
+                for n in node_labels:
+                    h3.add_node(n)
+                next(s3.sample(initial_hyg=h3))
+            ctx.event("another-sampler-ran-between-the-two-equal-ones")
+        except Exception as e:
+            ctx.note("intermediate-sampler-raised:" + type(e).__name__)
     with np.errstate(all="ignore"):
         r2 = call(draw)
     if isinstance(r2, _Raised):
